@@ -53,12 +53,34 @@ def main():
     spec = json.load(open(sys.argv[1]))
     sys.path.insert(0, spec['verif'])
     sys.path.insert(0, spec['repo'])
+    out = attempt(spec, dict(spec['args']))
+    if not out.get('confirmed') and spec.get('variants') and spec.get('builder'):
+        # bounded search around the solver's model (DESIGN 4.1): same obligation, nearby receiver states
+        tried = 0
+        for var in spec['variants']:
+            args = json.loads(json.dumps(spec['args']))
+            for path, val in var.items():
+                top, key = path.split('/', 1)
+                args.setdefault(top, {})[key] = val
+            tried += 1
+            o2 = attempt(spec, args)
+            if o2.get('confirmed'):
+                o2['variant'] = var
+                o2['variants_tried'] = tried
+                o2['witness_args'] = args
+                out = o2
+                break
+        else:
+            out['variants_tried'] = tried
+    print(json.dumps(out))
+
+
+def attempt(spec, args):
     out = {'confirmed': False, 'detail': ''}
     try:
         ns = {}
         if spec.get('scope'):
             ns.update(vars(importlib.import_module(spec['scope'])))
-        args = dict(spec['args'])
         if spec.get('builder'):
             b = ns[spec['builder']]
             fn, call_args, extra = b(args)
@@ -73,8 +95,7 @@ def main():
             code, _ = prep(r)
             if not eval(code, ns):
                 out['detail'] = 'witness violates requires: %s' % r
-                print(json.dumps(out))
-                return
+                return out
         ens = [prep(e) for e in spec.get('ensures', [])]
         oldvals = []
         for code, olds in ens:
@@ -124,7 +145,7 @@ def main():
     except Exception:
         out['detail'] = 'replay harness error: ' + traceback.format_exc()[-1500:]
         out['harness_error'] = True
-    print(json.dumps(out))
+    return out
 
 
 if __name__ == '__main__':
